@@ -79,6 +79,19 @@ def scenarios(rng, tier):
     w_h5 = ["open w hdf5", "new / N0 Lab0_t I4 200 %d" % r(), "new /N0 N1 Lab1_t I4 200 %d" % r(), "new / N3 Lab3_t R8 600 %d" % r(),
             "wr /N0 I4 900 %d" % r(), "setlabel /N0/N1 Relabel_t", "link / L2 - /N3", "move /N0/N1 /", "rename /N3 N3b", "del /L2", "flush", "close"]
     out.append(dict(name="hdf5-write", backend="hdf5", prep=[], script=w_h5))
+    # layout-tuned scenarios: the unchecked call site does real I/O only for particular file layouts (a data chunk larger than
+    # a block whose 4-byte start tag ends a block; a link whose data chunk lies in the block after its node header).  The
+    # size n of a filler node is searched (known value first) until a system call is made under the target call site.
+    sd = [r() for _ in range(4)]
+    out.append(dict(name="adf-chunk-at-block-end", backend="adf", prep=[], script=None,
+                    tune=dict(target=("ADFI_write_data_chunk", "ADFI_write_disk_pointer_2_disk"), first=2688, step=4, span=4100,
+                              build=lambda n: dict(prep=[], script=["open w adf", "new / P Lab_t C1 %d %d" % (n, sd[0]),
+                                                                    "new / Q Lab_t C1 5000 %d" % sd[1], "close"]))))
+    out.append(dict(name="adf-delete-link-data-in-next-block", backend="adf", prep=[], script=None,
+                    tune=dict(target=("ADF_Delete", "ADFI_delete_data"), first=2701, step=120, span=4300,
+                              build=lambda n: dict(prep=[("f.cgns", ["open w adf", "new / A Lab_t C1 %d %d" % (n, sd[2]), "link / L - /A",
+                                                                      "new / B Lab_t R8 3000 %d" % sd[3], "close"])],
+                                                   script=["open m adf", "new / X Lab_t C1 5000 3", "del /L", "close"]))))
     if tier == "thorough":
         out.append(dict(name="hdf5-compress", backend="hdf5", prep=[("f.cgns", w_h5[:5] + ["close"])],
                         script=["open m hdf5", "new / Big0 Big_t R8 2000 %d" % r(), "del /Big0", "compress"]))
@@ -231,6 +244,28 @@ def oracle_of(tab, edges, wrappers):
     return o + [1]
 
 
+def tune(h, preload, ipso, sc, sw, budget):
+    """search the filler size for which a system call is made under the target call site; fills sc[prep], sc[script]"""
+    t = sc["tune"]
+    cand = [t["first"]] + [n for n in range(1, t["span"], t["step"]) if n != t["first"]]
+    # nearest values first
+    cand = [cand[0]] + sorted(cand[1:], key=lambda n: abs(n - t["first"]))
+    for i, n in enumerate(cand[:budget]):
+        sc.update(t["build"](n))
+        shutil.rmtree(sw, ignore_errors=True)
+        base = os.path.join(sw, "base")
+        prepare(h, ipso, sc, base)
+        trf = os.path.join(sw, "trace")
+        st, oc, err = session(h, preload, base, sc["script"], trace=trf, where=True)
+        if oc != "ok" or any(st):
+            continue
+        calls, _ = parse_where(trf)
+        sym = symbolize(h, [a for c in calls.values() for a in c["addrs"]])
+        if any(any((c, e) == t["target"] for (c, _, e) in chain_of(cl, sym)) and cl["name"] in HARD for cl in calls.values()):
+            return n, i + 1
+    return None, min(budget, len(cand))
+
+
 # ----------------------------------------------------------------------------- one fault case
 def fault_case(h, ipso, base, work, sc, faults, nops, ideal, tag):
     d = os.path.join(work, "f_" + tag)
@@ -340,10 +375,17 @@ def run_extra(ck, standalone=False):
     fails, corr_broken = [], []
     per_target = {k: {"kind": v, "positions": 0, "runs": 0, "reported": 0, "problems": 0, "scenarios": []} for k, v in targets.items()}
     preload = ipso + ":" + wso
+    ex["tuned"] = {}
     for sc in scs:
         t_sc = __import__("time").time()
         sw = os.path.join(work, sc["name"])
         base = os.path.join(sw, "base")
+        if sc.get("tune"):
+            n, tries = tune(h, preload, ipso, sc, sw, 400 if big else 40)
+            ex["tuned"][sc["name"]] = {"n": n, "tries": tries, "target": "%s:%s" % sc["tune"]["target"]}
+            if n is None:
+                continue                                               # the layout was not found: recorded as not exercised
+            shutil.rmtree(sw, ignore_errors=True)
         prepare(h, ipso, sc, base)
         d0 = os.path.join(sw, "ref")
         shutil.copytree(base, d0)
